@@ -12,6 +12,14 @@ import warnings
 from . import project
 
 
+def _shares(a, b):
+    try:
+        ids = {id(e) for e in a.xml.iter()}
+        return any(id(e) in ids for e in b.xml.iter())
+    except Exception:  # noqa: BLE001
+        return False
+
+
 class Tracer:
     def __init__(self):
         self.events = []
@@ -109,6 +117,7 @@ class Tracer:
                             "pre": pre, "msg": msg, "post": project.project_ro_xml(target.xml),
                             "status": status, "warns": warns, "ser_eq": str(ro) == before,
                             "intact": True, "cls": "", "completed_eq": True, "acc_eq": True, "expose_intact": True, "mid": mid,
+                            "unshared": not _shares(target, other),
                             "completed_acc": bool(target.completed),
                             "has_sink": tracer.sink is not None or tapped is not None})
             finally:
